@@ -33,6 +33,7 @@ import (
 	"encoding/json"
 	"flag"
 	"fmt"
+	"io"
 	"math/rand"
 	"os"
 	"path/filepath"
@@ -123,10 +124,21 @@ func doPut(c *cache.Cache, id cache.ActionID, data []byte, via string) (r callRe
 		if via == "putbytes" {
 			r.err = c.PutBytes(id, data)
 			r.out, r.size = sha256.Sum256(data), int64(len(data))
-		} else if atomic.AddInt64(&putSeq, 1)%2 == 0 {
-			r.out, r.size, r.err = c.PutNoVerify(id, bytes.NewReader(data)) // same promise as Put; they take turns
 		} else {
-			r.out, r.size, r.err = c.Put(id, bytes.NewReader(data))
+			// the entry points that take a reader promise the same and take turns; every third reader has been read
+			// before (to its end, or half way): what is stored is the content of the file, not what is left of it
+			rd := bytes.NewReader(data)
+			switch k := atomic.AddInt64(&putSeq, 1); k % 6 {
+			case 2:
+				rd.Seek(0, io.SeekEnd)
+			case 5:
+				rd.Seek(int64(len(data)/2), io.SeekStart)
+			}
+			if atomic.LoadInt64(&putSeq)%2 == 0 {
+				r.out, r.size, r.err = c.PutNoVerify(id, rd)
+			} else {
+				r.out, r.size, r.err = c.Put(id, rd)
+			}
 		}
 	})
 	return
@@ -979,6 +991,81 @@ func runFuzz(n int, work, tracePath, outPath string) {
 
 var crumbDir string
 
+// runEnvDamage: states of the directory that plain reads and writes of file contents cannot produce - a cache file replaced
+// by a symbolic link to itself, by a directory, its directory replaced by a plain file.  "Whatever state the files on
+// disk are in": the lookups answer not-found or something sound, and do not panic.  (What a later Put makes of such a
+// state is not judged.)
+func runEnvDamage(work, outPath string) {
+	type scen struct {
+		name string
+		do   func(idx, data string) error
+	}
+	selfLink := func(p string) error {
+		if err := os.Remove(p); err != nil {
+			return err
+		}
+		return os.Symlink(filepath.Base(p), p)
+	}
+	asDir := func(p string) error {
+		if err := os.Remove(p); err != nil {
+			return err
+		}
+		return os.Mkdir(p, 0o777)
+	}
+	dirAsFile := func(p string) error {
+		d := filepath.Dir(p)
+		if err := os.RemoveAll(d); err != nil {
+			return err
+		}
+		return os.WriteFile(d, []byte("not a directory\n"), 0o666)
+	}
+	scens := []scen{
+		{"data-file-is-a-link-to-itself", func(i, d string) error { return selfLink(d) }},
+		{"data-file-is-a-directory", func(i, d string) error { return asDir(d) }},
+		{"data-directory-is-a-file", func(i, d string) error { return dirAsFile(d) }},
+		{"index-file-is-a-link-to-itself", func(i, d string) error { return selfLink(i) }},
+		{"index-file-is-a-directory", func(i, d string) error { return asDir(i) }},
+		{"index-directory-is-a-file", func(i, d string) error { return dirAsFile(i) }},
+		{"data-file-is-a-dangling-link", func(i, d string) error {
+			if err := os.Remove(d); err != nil {
+				return err
+			}
+			return os.Symlink("no-such-file", d)
+		}},
+	}
+	n := 0
+	for _, content := range [][]byte{[]byte("abc"), {}, bytes.Repeat([]byte("x"), 5000)} {
+		for _, sc := range scens {
+			w := newWorker(work, n)
+			n++
+			id := actionID("i1")
+			r := doPut(w.c, id, content, "putbytes")
+			if r.panicked != "" || r.err != nil {
+				vutil.Fatalf("envdamage: Put failed: %v %v", r.err, r.panicked)
+			}
+			out := sha256.Sum256(content)
+			ci := ctxInfo{mode: "envdamage", class: fmt.Sprintf("%s (content of %d bytes)", sc.name, len(content)),
+				input: map[string]interface{}{"state": sc.name, "content_len": len(content)}}
+			if err := sc.do(idxPath(w.dir, id), dataPath(w.dir, out)); err != nil {
+				drift("envdamage-not-applicable", err.Error(), ci, nil)
+				continue
+			}
+			soundGet(doGet(w.c, id), ci)
+			soundBytes(doGetBytes(w.c, id), ci)
+			soundFile(doGetFile(w.c, id), ci)
+			if r := doPut(w.c, id, content, "put"); r.panicked != "" {
+				violate("panic", "Put panicked", ci, r.panicked)
+			}
+			soundBytes(doGetBytes(w.c, id), ci)
+			soundFile(doGetFile(w.c, id), ci)
+			res.Eval(true)
+			res.Count("envdamage_states", 1)
+			os.RemoveAll(w.dir)
+		}
+	}
+	res.Write(outPath)
+}
+
 // runOne performs the three lookups for one index entry (a breadcrumb of an earlier fuzz run) in a process of its own.
 func runOne(crumb, work, outPath string) {
 	b, err := os.ReadFile(crumb)
@@ -1132,6 +1219,8 @@ func main() {
 		runFuzz(*n, *work, *trace, *out)
 	case "one":
 		runOne(*cases, *work, *out)
+	case "envdamage":
+		runEnvDamage(*work, *out)
 	default:
 		vutil.Fatalf("unknown mode %q", *mode)
 	}
